@@ -1112,7 +1112,7 @@ def unraw_rule(syn, prop, rule="C04.R3"):
     return r
 
 
-def quoted_sink_rule(syn, prop, rule="C04.R4"):
+def quoted_sink_rule(syn, prop, rule="C04.R4", direct_only=False):
     r = Result(rule, "every user-controlled string interpolated between double quotes (tag, content, variant / type names, property names that need quoting) is escaped: by an escape routine applied in the sink expression, by a shadowing `let v = <escape routine>(..)` before the template, or - for tag/content - once where the container attributes are read")
     esc_fns = {f["name"] for f in syn.fns_in("macros/src") if re.search(r"escape", f["name"])}
     # central sanitisation of container tag/content
@@ -1137,7 +1137,7 @@ def quoted_sink_rule(syn, prop, rule="C04.R4"):
             if e["kind"] != "macro":
                 continue
             calls = []
-            if e["name"] in QUOTES:
+            if e["name"] in QUOTES and not direct_only:
                 calls = S.format_calls(e["tokens"])
             elif e["name"] == "format":
                 toks = e["tokens"]
@@ -1186,7 +1186,7 @@ def quoted_sink_rule(syn, prop, rule="C04.R4"):
                "%d interpolation(s) between double quotes without escaping (e.g. %s at line %d): a `\"` or `\\` in a rename/tag/content string breaks the string literal in the generated .ts" % (len(lst), lst[0][1], lst[0][0]),
                fn["file"], lst[0][0])
     r.stats = {"quoted_sinks": n_sinks}
-    r.floor = 25
+    r.floor = 1 if direct_only else 25
     return r
 
 
